@@ -102,7 +102,8 @@ def _clobber(target, env, op):
             env[s.id] = op.fresh(s.id)
 
 
-def sym_paths(body, limit=4000, init_env=None) -> List[SymPath]:
+def sym_paths(body, limit=4000, init_env=None, fi=None, inliner=None) -> List[SymPath]:
+    inl = inliner if inliner is not None else INLINER
     out = []
     for p in enumerate_paths(body, limit):
         sp = SymPath(p)
@@ -198,6 +199,16 @@ def sym_paths(body, limit=4000, init_env=None) -> List[SymPath]:
                         env[sub.id] = op.fresh(sub.id)
                 sp.events.append(Event('other', n, None, None, st))
         sp.env = env
+        if inl is not None and fi is not None:
+            sp.conds = [(inl.apply(c, fi), t) for c, t in sp.conds]
+            if sp.value is not None:
+                sp.value = inl.apply(sp.value, fi)
+            for e in sp.events:
+                if isinstance(e.expr, ast.AST):
+                    e.expr = inl.apply(e.expr, fi)
+                if isinstance(e.target, ast.AST):
+                    e.target = inl.apply(e.target, fi)
+            sp.env = {k: inl.apply(v, fi) for k, v in env.items()}
         if _trivially_infeasible(sp):
             continue
         out.append(sp)
@@ -235,7 +246,7 @@ def _assigned_in(loop, name):
 
 def func_sym_paths(fi, limit=4000) -> List[SymPath]:
     from .model import docstring_free
-    return sym_paths(docstring_free(fi.body), limit)
+    return sym_paths(docstring_free(fi.body), limit, fi=fi)
 
 
 def returns(fi, limit=4000):
@@ -247,3 +258,90 @@ def returns(fi, limit=4000):
         elif sp.end == 'fall':
             out.append((sp.condition(), ast.Constant(value=None), sp))
     return out
+
+
+# ----------------------------------------------------------------------- helper inlining
+class Inliner:
+    """Private single-expression helpers are transparent to the rules: a call `self._x(a)`, `cls._x(a)`, `Class._x(a)` or
+    `_x(a)` whose callee is a private kernpy function with exactly ONE path (no branching; local assignments allowed) ending in
+    `return <expr>` is replaced by that expression with the parameters replaced by the arguments.  Extracting such a helper,
+    or inlining it again, therefore does not change any canonical expression the rules compare."""
+
+    def __init__(self, ctx):
+        self.ctx = ctx
+        self._cache = {}
+        self.enabled = True
+        self.count = 0
+
+    def single_expr(self, target):
+        k = id(target.node)
+        if k in self._cache:
+            return self._cache[k]
+        self._cache[k] = None       # recursion guard
+        res = None
+        try:
+            if isinstance(target.node, ast.Lambda) or target.is_abstract:
+                return None
+            from .model import docstring_free
+            body = docstring_free(target.body)
+            if any(isinstance(n, (ast.For, ast.While, ast.Try, ast.With, ast.If, ast.Yield, ast.YieldFrom)) for b in body for n in ast.walk(b)):
+                return None
+            sps = sym_paths(body, limit=8, fi=target, inliner=self)
+            if len(sps) == 1 and sps[0].end == 'return' and not sps[0].conds and sps[0].value is not None:
+                # no side effects: every event is an assignment or the return
+                if all(e.kind in ('assign', 'return') for e in sps[0].events):
+                    res = sps[0].value
+        except AnalysisError:
+            res = None
+        self._cache[k] = res
+        return res
+
+    def apply(self, node, fi):
+        if not self.enabled or fi is None or node is None:
+            return node
+        from . import facts as F
+        inl = self
+
+        class T(ast.NodeTransformer):
+            def visit_Lambda(self, n):
+                return n
+
+            def visit_Call(self, c):
+                self.generic_visit(c)
+                f = c.func
+                name = f.attr if isinstance(f, ast.Attribute) else (f.id if isinstance(f, ast.Name) else None)
+                if not name or not name.startswith('_') or name.startswith('__'):
+                    return c
+                try:
+                    target, bound = F._static_callee(inl.ctx, c, fi)
+                except AnalysisError:
+                    return c
+                if target is None or target.node is getattr(fi, 'node', None) or target.module.generated:
+                    return c
+                if target.name == '__init__':
+                    return c
+                expr = inl.single_expr(target)
+                if expr is None:
+                    return c
+                try:
+                    b = F.bind_args(c, target, bound and target.kind in ('method', 'classmethod'))
+                except AnalysisError:
+                    return c
+                if '**' in b or any(isinstance(a, ast.Starred) for a in c.args):
+                    return c
+                mapping = dict(b)
+                for p in target.all_params:
+                    if p not in mapping:
+                        d = F.param_default(target, p)
+                        if d is not None:
+                            mapping[p] = d
+                if target.kind in ('method', 'classmethod') and target.params and isinstance(f, ast.Attribute):
+                    recv = target.params[0]
+                    if recv not in mapping:
+                        mapping[recv] = f.value
+                inl.count += 1
+                return G.substitute(expr, mapping, recursive=False)
+        return T().visit(clone(node))
+
+
+INLINER = None      # set by cli.run_property for the duration of one analysis
